@@ -173,7 +173,7 @@ func main() {
 			os.Exit(130)
 		}()
 	}
-	cfg := SolverCfg{QuickMs: 5000, FallbackMs: 10000, WorkDir: *work}
+	cfg := SolverCfg{QuickMs: 5000, FallbackMs: 20000, WorkDir: *work}
 	if *tier == "thorough" {
 		cfg = SolverCfg{QuickMs: 20000, FallbackMs: 60000, WorkDir: *work, Cross: true}
 	}
@@ -307,7 +307,7 @@ func replayMain(file, repo, specDir, out string) int {
 	}
 	work, _ := os.MkdirTemp("", "govc")
 	defer os.RemoveAll(work)
-	cfg := SolverCfg{QuickMs: 5000, FallbackMs: 10000, WorkDir: work}
+	cfg := SolverCfg{QuickMs: 5000, FallbackMs: 20000, WorkDir: work}
 	rs := verifyUnits(g, cts, cfg)
 	for _, r := range rs {
 		if r.Unsupported != "" {
